@@ -6,6 +6,7 @@ import (
 	"context"
 	"fmt"
 	"go/ast"
+	"go/constant"
 	"go/token"
 	"go/types"
 	"os"
@@ -29,22 +30,24 @@ type guardInfo struct {
 }
 
 type Engine struct {
-	curView    string            // proof view for the next verifyFunc call
-	excuses    map[string]string // open known findings: obligation name -> pre-state predicate describing the recorded failing inputs
-	repo       string
-	verif      string
-	prog       *ssa.Program
-	pkgs       []*packages.Package
-	spkgs      map[string]*ssa.Package   // by path suffix
-	tpkgs      map[string]*types.Package // by path suffix (including dependencies seen through imports)
-	cs         *ContractSet
-	frames     map[*ssa.Function]*Effects
-	reads      map[*ssa.Function]*Effects
-	rebind     map[string]string // loop-invariant names re-bound to (renamed) locals, for the function being verified
-	guarded    map[string]guardInfo
-	guardedSub map[string]guardInfo // struct-typed guarded fields, by the tag of their sub-object reference
-	funcs      map[string]*ssa.Function
-	loadSecs   float64
+	curView     string            // proof view for the next verifyFunc call
+	excuses     map[string]string // open known findings: obligation name -> pre-state predicate describing the recorded failing inputs
+	repo        string
+	verif       string
+	prog        *ssa.Program
+	pkgs        []*packages.Package
+	spkgs       map[string]*ssa.Package   // by path suffix
+	tpkgs       map[string]*types.Package // by path suffix (including dependencies seen through imports)
+	cs          *ContractSet
+	frames      map[*ssa.Function]*Effects
+	reads       map[*ssa.Function]*Effects
+	finalsShown bool
+	finals      map[types.Object]constant.Value // effectively constant package-level integer variables
+	rebind      map[string]string               // loop-invariant names re-bound to (renamed) locals, for the function being verified
+	guarded     map[string]guardInfo
+	guardedSub  map[string]guardInfo // struct-typed guarded fields, by the tag of their sub-object reference
+	funcs       map[string]*ssa.Function
+	loadSecs    float64
 }
 
 func (eng *Engine) pkgSuffix(path string) string {
@@ -298,6 +301,84 @@ func (eng *Engine) funcFieldContract(v ssa.Value) *Contract {
 	return eng.cs.Funcs[eng.pkgSuffix(n.Obj().Pkg().Path())+".field:"+n.Obj().Name()+"."+st.Field(fa.Field).Name()]
 }
 
+// finalGlobal: the value of a package-level variable of integer type that is initialised with a constant expression and that no
+// function of the program ever assigns or takes the address of (effectively a constant); ok=false otherwise.
+func (eng *Engine) finalGlobal(g *ssa.Global) (constant.Value, bool) {
+	if eng.finals == nil {
+		eng.finals = map[types.Object]constant.Value{}
+		for _, p := range eng.pkgs {
+			if p.TypesInfo == nil || !strings.HasPrefix(p.PkgPath, modulePath) {
+				continue
+			}
+			for _, f := range p.Syntax {
+				for _, d := range f.Decls {
+					gd, ok := d.(*ast.GenDecl)
+					if !ok || gd.Tok != token.VAR {
+						continue
+					}
+					for _, sp := range gd.Specs {
+						vs, ok := sp.(*ast.ValueSpec)
+						if !ok || len(vs.Values) != len(vs.Names) {
+							continue
+						}
+						for i, nm := range vs.Names {
+							tv, ok := p.TypesInfo.Types[vs.Values[i]]
+							obj := p.TypesInfo.Defs[nm]
+							if !ok || tv.Value == nil || obj == nil || tv.Value.Kind() != constant.Int {
+								continue
+							}
+							if b, isBasic := obj.Type().Underlying().(*types.Basic); !isBasic || b.Info()&types.IsInteger == 0 {
+								continue
+							}
+							eng.finals[obj] = tv.Value
+						}
+					}
+				}
+			}
+		}
+		if os.Getenv("GOVC_DEBUG_FINALS") != "" {
+			fmt.Fprintln(os.Stderr, "final candidates:", len(eng.finals), "pkgs:", len(eng.pkgs))
+		}
+		if len(eng.finals) > 0 {
+			for fn := range ssautil.AllFunctions(eng.prog) {
+				if fn.Synthetic == "package initializer" {
+					continue // the initialising store itself
+				}
+				for _, b := range fn.Blocks {
+					for _, in := range b.Instrs {
+						if u, ok := in.(*ssa.UnOp); ok && u.Op == token.MUL {
+							continue // a load
+						}
+						if _, ok := in.(*ssa.DebugRef); ok {
+							continue
+						}
+						for _, op := range in.Operands(nil) {
+							if op == nil || *op == nil {
+								continue
+							}
+							if gg, ok := (*op).(*ssa.Global); ok && gg.Object() != nil {
+								delete(eng.finals, gg.Object())
+							}
+						}
+					}
+				}
+			}
+		}
+	}
+	if os.Getenv("GOVC_DEBUG_FINALS") != "" && !eng.finalsShown {
+		eng.finalsShown = true
+		debugFinals(eng)
+	}
+	if g.Object() == nil {
+		return nil, false
+	}
+	v, ok := eng.finals[g.Object()]
+	if ok && g.Pkg != nil && !eng.cs.ConstVars[eng.pkgSuffix(g.Pkg.Pkg.Path())+"."+g.Name()] {
+		return nil, false // not declared with `constvar` in a contract file
+	}
+	return v, ok
+}
+
 // findFunc resolves a contract key to an SSA function
 func (eng *Engine) findFunc(key string) *ssa.Function {
 	if f, ok := eng.funcs[key]; ok {
@@ -439,3 +520,13 @@ func (eng *Engine) resolveType(pkgSuffix string, e ast.Expr) types.Type {
 	}
 	return nil
 }
+
+func init() {
+	debugFinals = func(eng *Engine) {
+		for o, v := range eng.finals {
+			fmt.Fprintln(os.Stderr, "final:", o.Pkg().Path(), o.Name(), v)
+		}
+	}
+}
+
+var debugFinals func(eng *Engine)
